@@ -398,6 +398,9 @@ func rules2BitTable(c *Ctx, r *Report, itonFn *ssa.Function, itonOf map[int64]in
 	where := "sequtil.dnaFrom2bit"
 	g := c.tableIn(c.fn("sequtil", "DNAFrom2Bit"), 0)
 	if g == nil {
+		g = c.tableIn(c.fn("sequtil", "DNAFrom2Bit"), 1) // the lookup in a helper that returns the row
+	}
+	if g == nil {
 		r.undecided("T-2BIT", where, "anchor", "", "table variable not found")
 		return
 	}
@@ -719,6 +722,26 @@ func rules2BitTable(c *Ctx, r *Report, itonFn *ssa.Function, itonOf map[int64]in
 			el := arg.Args[0].Args[1]
 			if el.Op == "load" && el.Args[0].Op == "index" && el.Args[0].Args[0].String() == "P1" {
 				okArg, idxSym = true, el.Args[0].Args[1]
+			}
+		}
+		// the row fetched by a helper of the package into a local: quad := row(src[i]); append(dst, quad[:]...)
+		if sl, ok := cl.Call.Args[1].(*ssa.Slice); ok && !okArg && sl.Low == nil && sl.High == nil {
+			if al, ok := sl.X.(*ssa.Alloc); ok {
+				if hc, ok := cellValue(al).(*ssa.Call); ok && len(hc.Call.Args) == 1 {
+					if h := hc.Call.StaticCallee(); h != nil && h.Blocks != nil && h.Pkg == f.Pkg && len(h.Blocks) == 1 && len(h.Params) == 1 {
+						if rt, ok := lastInstr(h.Blocks[0]).(*ssa.Return); ok && len(rt.Results) == 1 {
+							he := newSymb(h).expr(rt.Results[0]).String()
+							if he == "load(load(G:"+g.Name()+")[P0])" || he == "load(G:"+g.Name()+"[P0])" {
+								el := s.expr(hc.Call.Args[0])
+								if el.Op == "load" && el.Args[0].Op == "index" && el.Args[0].Args[0].String() == "P1" {
+									okArg, idxSym = true, el.Args[0].Args[1]
+									arg = el
+									r.analysed(fname(h))
+								}
+							}
+						}
+					}
+				}
 			}
 		}
 		// rows that are slices: the row itself
